@@ -35,6 +35,19 @@ import (
 var dirNames = []string{"d0", "d1"}
 var names = []string{"s0", "s1", "s2", "p0", "p1", "p2", "p3", "p4", "p5", "base"}
 
+// readOwned renders what ReadAt returned and then uses the slice the way its owner may: it
+// overwrites the bytes and appends to it (into any spare capacity).  The file system must not
+// be affected (the result is the caller's).
+func readOwned(b []byte) string {
+	res := enc.RLE(b)
+	for i := range b {
+		b[i] = '#'
+	}
+	b = append(b, "<scribble>"...)
+	_ = b
+	return res
+}
+
 func nameID(s string) int {
 	for i, n := range names {
 		if n == s {
@@ -205,7 +218,7 @@ func main() {
 					case "A":
 						do(fmt.Sprintf("A %d %s", p.fd, enc.RLE(p.data)), func() string { fs.Append(p.real, p.data); return "U" })
 					case "R":
-						do(fmt.Sprintf("R %d %d %d", p.fd, p.off, p.ln), func() string { return "D " + enc.RLE(fs.ReadAt(p.real, p.off, p.ln)) })
+						do(fmt.Sprintf("R %d %d %d", p.fd, p.off, p.ln), func() string { return "D " + readOwned(fs.ReadAt(p.real, p.off, p.ln)) })
 					case "K":
 						do(fmt.Sprintf("K %d %d %s", p.d, p.n, enc.RLE(p.data)), func() string {
 							fs.AtomicCreate(dirNames[p.d], names[p.n], p.data)
@@ -238,7 +251,7 @@ func main() {
 						do(fmt.Sprintf("D %d %d", p.d, p.n), func() string { fs.Delete(dirNames[p.d], names[p.n]); return "U" })
 						if opened {
 							num := int(f) - 1
-							do(fmt.Sprintf("R %d %d %d", num, p.off, p.ln), func() string { return "D " + enc.RLE(fs.ReadAt(f, p.off, p.ln)) })
+							do(fmt.Sprintf("R %d %d %d", num, p.off, p.ln), func() string { return "D " + readOwned(fs.ReadAt(f, p.off, p.ln)) })
 							do(fmt.Sprintf("X %d", num), func() string { fs.Close(f); return "U" })
 						}
 					case "ORX":
@@ -251,7 +264,7 @@ func main() {
 						})
 						if opened {
 							num := int(f) - 1
-							do(fmt.Sprintf("R %d %d %d", num, p.off, p.ln), func() string { return "D " + enc.RLE(fs.ReadAt(f, p.off, p.ln)) })
+							do(fmt.Sprintf("R %d %d %d", num, p.off, p.ln), func() string { return "D " + readOwned(fs.ReadAt(f, p.off, p.ln)) })
 							do(fmt.Sprintf("X %d", num), func() string { fs.Close(f); return "U" })
 						}
 					case "S":
